@@ -188,6 +188,22 @@ Proof.
   - exfalso. apply HJ. split; [eapply lt_LL_false | eapply lt_UU_false]; eauto.
 Qed.
 
+Theorem difference2_encloses z I J x : mem x I -> ~ mem x J -> mem x (difference_assign2 C so z I J).
+Proof.
+  intros [H1 H2] HJ. unfold difference_assign2.
+  destruct (lt C so UPPER (upper I) LOWER (lower J) || gt C so LOWER (lower I) UPPER (upper J));
+    [apply assign_exact; split; auto|].
+  unfold ge, le, gt.
+  destruct (lt C so LOWER (lower I) LOWER (lower J)) eqn:E1; cbn [negb];
+  destruct (lt C so UPPER (upper J) UPPER (upper I)) eqn:E2; cbn [negb].
+  - apply assign_exact; split; auto.
+  - split; cbn [lower upper info_clear]; [apply copy_L; auto|]. apply complement_U; auto.
+    intros HL. apply HJ. split; auto. eapply lt_UU_false; eauto.
+  - split; cbn [lower upper info_clear]; [|apply copy_U; auto]. apply complement_L; auto.
+    intros HU. apply HJ. split; auto. eapply lt_LL_false; eauto.
+  - exfalso. apply HJ. split; [eapply lt_LL_false | eapply lt_UU_false]; eauto.
+Qed.
+
 (* ---- refinement by a relation -------------------------------------------------------------------- *)
 
 Definition rel_holds (r : relsym) (a b : Q) : Prop :=
